@@ -97,6 +97,7 @@ def parseOp (t : String) : Option Op :=
   | ["rmif", p, r] => do pure (.removeIf (← parsePred p) (← parseBool r))
   | ["xif", p, r] => do pure (.extractIf (← parsePred p) (← parseBool r))
   | ["xtake", n, p, r] => do pure (.extractTake (← n.toNat?) (← parsePred p) (← parseBool r))
+  | ["rmfirst", k, p, r] => do pure (.removeIfFirst (← k.toNat?) (← parsePred p) (← parseBool r))
   | ["add", p, st] => do pure (.addJob (← p.toNat?) (← parseState st))
   | ["rep1", i] => do pure (.reportOne (← i.toNat?))
   | ["ajs", p, r, i, name] => do
